@@ -120,7 +120,7 @@ struct Init {
                [](bool th) { GenParams g; g.fill_rec_split = true; g.fill = true; g.redef = true; g.max_np = th ? 8 : 6; g.max_data_ops = th ? 24 : 14; g.checkpoint_each = false; g.knobs = true; return g; },
                [](const Program &q, const RunResult &r) { bool f = false; for (auto &op : q.ops) if (!op.skip && (op.kind == OP_SET_FILL || op.kind == OP_DEF_VAR_FILL)) f = true; return r.completed && f; });
         simple("C08", "one seed = one program whose collective put/get calls (var1/var/vara/vars/varm, varn, vard families; fixed and record variables) give each of 2..8 ranks valid, zero-length or invalid arguments (bad varid, start, edge, negative count, stride, char/number mismatch), with safe mode on in a quarter of the seeds (errors then shared), intra-node aggregation and hints varied, eager/synchronising collectives and starvation in the schedule; the simulated MPI matches every collective by sequence number and reports the first mismatch or deadlock exactly; oracle: no mismatch, no hang, each rank's return code as documented (own error locally / shared in safe mode), valid ranks' data stored; non-trivial = at least one rank had an invalid or zero-length request in a collective call on >= 2 ranks",
-               [](bool th) { GenParams g; g.invalid_args = true; g.min_np = 2; g.max_np = th ? 8 : 6; g.max_data_ops = th ? 20 : 12; g.hints = true; g.nonblocking = true; g.fill = true; g.max_dimlen = 4; return g; },
+               [](bool th) { GenParams g; g.fill_rec_split = true; g.invalid_args = true; g.min_np = 2; g.max_np = th ? 8 : 6; g.max_data_ops = th ? 20 : 12; g.hints = true; g.nonblocking = true; g.fill = true; g.max_dimlen = 4; return g; },
                [](const Program &q, const RunResult &r) { if (q.cfg.sim.nprocs < 2 || !r.completed) return false; for (auto &op : q.ops) if (!op.skip && (op.kind == OP_PUT || op.kind == OP_GET) && op.coll) for (auto &a : op.acc) if (!a.active || a.invalid || a.exp_rc != NC_NOERR) return true; return false; });
         {   // C14 mode state machine and error precedence
             Profile p; p.id = "C14"; p.level = "exploration"; p.exhaustive = false;
@@ -213,7 +213,7 @@ struct Init {
             }
             Profile p; p.id = "C15"; p.level = "exploration"; p.space_seeds = total_progs;
             p.technique = "deterministic simulation: complete enumeration of (start,count,stride) tuples on small shapes with a byte diff of the simulated disk around every request";
-            p.rule = "shapes {1},{2},{3},{2,3},{3,2},{1,3},{2,2,2} x {fixed, record} x {get, put} x {relaxed, strict coordinate bound} x API forms {vara, var1, varn, nonblocking vara + wait; vars and varm for rank <= 2}; per dimension start and count range over [-1, len+1] and stride over {-1,0,1,2,len+1}; every tuple of that product is one case (" + std::to_string(total_progs) + " programs of " + std::to_string(B) + " cases; seeds 1.." + std::to_string(total_progs) + " enumerate them all, later seeds repeat them under other schedules / formats / rank counts, record-variable puts on 2..3 ranks with intra-node aggregation (accepted tuples only) and varn puts with an extra zero-length sub-request beyond the last record); around each request the file image is snapshotted and diffed; oracle: return code == reference predicate (documented order EINVALCOORDS, EEDGE/ENEGATIVECNT, ESTRIDE), a rejected or zero-length request changes no byte, an accepted one only bytes of the addressed elements or the record count, values read back == model; non-trivial = the program contained both an accepted and a rejected request";
+            p.rule = "shapes {1},{2},{3},{2,3},{3,2},{1,3},{2,2,2} x {fixed, record} x {get, put} x {relaxed, strict coordinate bound} x API forms {vara, var1, varn, nonblocking vara + wait; vars and varm for rank <= 2}; per dimension start and count range over [-1, len+1] and stride over {-1,0,1,2,len+1}; every tuple of that product is one case (" + std::to_string(total_progs) + " programs of " + std::to_string(B) + " cases; seeds 1.." + std::to_string(total_progs) + " enumerate them all, later seeds repeat them under other schedules / formats / rank counts, record-variable puts on 2..3 ranks with intra-node aggregation (accepted tuples only) varn puts with an extra zero-length sub-request beyond the last record, flexible calls with derived buffer datatypes, and pairs of partially overlapping nonblocking puts completed by one wait); around each request the file image is snapshotted and diffed; oracle: return code == reference predicate (documented order EINVALCOORDS, EEDGE/ENEGATIVECNT, ESTRIDE), a rejected or zero-length request changes no byte, an accepted one only bytes of the addressed elements or the record count, values read back == model; non-trivial = the program contained both an accepted and a rejected request";
             p.gen = [dom](uint64_t seed, bool th) {
                 Program q; q.seed = seed; q.cfg.profile = "C15";
                 long long pi = (long long)((seed - 1) % (uint64_t)total_progs); uint64_t lap = (seed - 1) / (uint64_t)total_progs;
@@ -255,6 +255,7 @@ struct Init {
                     }
                     if (b.form == F_VARM) { a.imap.assign(nd, 1); long long mm = 1; for (int d = (int)nd - 1; d >= 0; d--) { a.imap[d] = mm; mm *= std::max<long long>(a.count[d], 1); } }
                     if (b.form == F_VARN) { a.nstart = {a.start}; a.ncount = {a.count}; }
+                    if (lap >= 1 && b.form != F_VAR1 && rng.chance(0.3)) { a.flexible = true; a.bufkind = (int)rng.below(8); }   // derived buffer datatypes (the count handed to MPI-IO is then in units of that type)
                     if (b.form == F_VARN && lap >= 1 && b.rec && !b.rd && rng.chance(0.5)) {   // plus a zero-length sub-request placed beyond the last record: it addresses nothing, so it must change nothing (incl. the record count)
                         std::vector<long long> zs(nd, 0), zc(nd, 1); zs[0] = gm.files[0].numrecs + 1 + (long long)rng.below(4); zc[rng.below(nd)] = 0;
                         if (rng.chance(0.5)) { a.nstart.push_back(zs); a.ncount.push_back(zc); } else { a.nstart.insert(a.nstart.begin(), zs); a.ncount.insert(a.ncount.begin(), zc); }
@@ -265,6 +266,10 @@ struct Init {
                     if (agg) { Model trial = gm; Op t2 = o; trial.cur_ops = nullptr; if (!model_step(trial, t2) || t2.acc[actor].exp_rc != NC_NOERR) continue; }
                     { Op c5 = mk(OP_CHECKPOINT); c5.a[0] = 5; emit(c5); }
                     emit(o);
+                    if (b.nb && !b.rd && lap >= 1 && rng.chance(0.4)) {   // a second request that partially overlaps the first one (shifted by one along the last dimension), completed by the same wait
+                        Op o2 = o; for (auto &x : o2.acc) if (x.active && !x.start.empty()) x.start.back() += 1;
+                        Model trial = gm; Op t2 = o2; trial.cur_ops = nullptr; if (model_step(trial, t2) && t2.acc[actor].exp_rc == NC_NOERR) emit(o2);
+                    }
                     if (b.nb) { Op w = mk(OP_WAIT); w.coll = true; w.waits.resize(np); for (auto &ws : w.waits) ws.mode = 1; emit(w); }
                     { Op c6 = mk(OP_CHECKPOINT); c6.a[0] = 6; emit(c6); }
                     if (!b.rd && (t % 4 == 3)) emit(mk(OP_SYNCPOINT));
